@@ -129,7 +129,7 @@ def check_r4(ctx, db, config, A):
                         tight = app('sub', app('round_down', old, d), app('round_up', app('size', L), d))
                         # per alternative of the stored phi
                         pass
-                    exact = all(bump_exact(I, P, x, facts, old, L) for x, facts in arena.alternatives(I, e.val, set(e.state.facts)))
+                    exact = all(bump_exact(I, P, x, facts, old, L) for x, facts in arena.alternatives_deep(I, e.val, set(e.state.facts)))
                 if exact:
                     ctx.ok('R4', '%s %s via %s: new == round_down(old, A) - round_up(size, A) with A in {MIN_ALIGN, align}' % (fn, site, key), 'per-alternative term identity')
                 else:
